@@ -1,5 +1,11 @@
 """C14 bounded stand-in: query, generate, convert and write operations never modify their inputs.
 
+Inputs: per game three basic charts and two sets (`_specs`) plus three charts and a set for the dimensions those hold fixed
+(`_more_specs`: int-typed columns, ties, time 0 / negative / huge times, zero-length holds, non-default row labels on EVERY list, empty and
+one-row lists, an empty chart in the middle of a set).  Operations: every listed operation with the default and another value of each
+optional argument, write and write_file, boundary arguments whose result keeps all / no rows, a list used as the ARGUMENT of append.
+Sequences: scripted, the same operation twice on the same input, random sequences that also return to an input value.
+
 Dynamic twin of the effects clause: every listed operation is run on charts / lists / mapsets of all five games, every
 argument (and every value produced earlier in the sequence) is snapshotted before and compared after (values, columns,
 dtypes, row labels, dataclass fields); results that are copies are then mutated in place and everything else is compared
@@ -133,6 +139,26 @@ def _list_ops():
     add("ave_bpm(last)", lambda l, c: l.ave_bpm(float(max(l.offset)) + 1000), cond=bpm)
     add("to_yaml()", lambda l, c: l.to_yaml(), clause="to_yaml", cond=lambda l: hasattr(l, "to_yaml"))
     add("write(keys)", lambda l, c: l.write(4) if "keys" in l.write.__code__.co_varnames else l.write(), clause="list_write", cond=lambda l: hasattr(l, "write"))
+    # boundary arguments: the result has the same rows as the receiver (nothing filtered, nothing added, nothing moved) - it must
+    # still be a new list that shares nothing with the receiver
+    lo_hi = lambda l: (float(min(l.offset)) - 1e6, float(max(l.offset) + (max(l.length) if hold(l) else 0)) + 1e6)  # noqa
+    add("after(t below all)", lambda l, c: l.after(lo_hi(l)[0]), True, cond=nonempty)
+    add("before(t above all)", lambda l, c: l.before(lo_hi(l)[1]), True, cond=nonempty)
+    add("between(all)", lambda l, c: l.between(*lo_hi(l)), True, cond=nonempty)
+    add("between(all, ends)", lambda l, c: l.between(float(min(l.offset)), float(max(l.offset)), include_ends=(True, True)), True, cond=nonempty)
+    add("after(first, include_end)", lambda l, c: l.after(float(min(l.offset)), include_end=True), True, cond=nonempty)
+    add("after(t above all)", lambda l, c: l.after(lo_hi(l)[1]), True, cond=nonempty)  # empty result
+    add("getitem(mask all)", lambda l, c: l[np.ones(len(l), dtype=bool)], True)
+    add("getitem(mask none)", lambda l, c: l[np.zeros(len(l), dtype=bool)], True)
+    add("append(empty list)", lambda l, c: l.append(type(l)([])), True)
+    add("append(as argument of an empty receiver)", lambda l, c: type(l)([]).append(l), True)  # the list is the ARGUMENT here
+    add("append(as argument, sort)", lambda l, c: type(l)([]).append(l, sort=True), True)
+    add("append(empty list, sort)", lambda l, c: l.append(type(l)([]), sort=True), True)
+    add("append(item, sort)", lambda l, c: l.append(l[len(l) - 1], sort=True), True, cond=nonempty)
+    add("move_start_to(first)", lambda l, c: l.move_start_to(float(min(l.offset))), True, cond=nonempty)
+    add("move_end_to(last)", lambda l, c: l.move_end_to(float(max(l.offset))), True, cond=nonempty)
+    add("current_bpm(t, delta)", lambda l, c: l.current_bpm(float(min(l.offset)), delta=0.0), cond=bpm)
+    add("loc_iloc_read", lambda l, c: (l.iloc[0:1], l.loc[l.df.index[:1]], l.df.index.tolist()), cond=nonempty)
     return ops
 
 
@@ -151,6 +177,25 @@ def _converters():
              ("O2JToSM_merge", lambda s: O2JToSM.convert_merge(s)), ("O2JToBMS", lambda s: O2JToBMS.convert(s))],
     )
     return chart, mapset
+
+
+def _converter_variants():
+    """the OTHER value of every optional converter argument (the table above uses one value each): (game, on, name of the base
+    converter whose clause the variant shares, variant label, callable)"""
+    from reamber.algorithms.convert import BMSToQua, O2JToBMS, OsuToBMS, OsuToQua, OsuToSM, QuaToBMS, SMToQua
+
+    return [
+        ("osu", "chart", "OsuToQua", "OsuToQua(defaults)", lambda m: OsuToQua.convert(m)),
+        ("osu", "chart", "OsuToSM", "OsuToSM(defaults)", lambda m: OsuToSM.convert(m)),
+        ("osu", "chart", "OsuToBMS", "OsuToBMS(defaults)", lambda m: OsuToBMS.convert(m)),
+        ("osu", "chart", "OsuToBMS", "OsuToBMS(move_right_by=3)", lambda m: OsuToBMS.convert(m, move_right_by=3)),
+        ("qua", "chart", "QuaToBMS", "QuaToBMS(defaults)", lambda m: QuaToBMS.convert(m)),
+        ("qua", "chart", "QuaToBMS", "QuaToBMS(move_right_by=3)", lambda m: QuaToBMS.convert(m, move_right_by=3)),
+        ("bms", "chart", "BMSToQua", "BMSToQua(defaults)", lambda m: BMSToQua.convert(m)),
+        ("sm", "mapset", "SMToQua", "SMToQua(defaults)", lambda s: SMToQua.convert(s)),
+        ("o2j", "mapset", "O2JToBMS", "O2JToBMS(move_right_by=0)", lambda s: O2JToBMS.convert(s, move_right_by=0)),
+        ("o2j", "mapset", "O2JToBMS", "O2JToBMS(move_right_by=3)", lambda s: O2JToBMS.convert(s, 3)),
+    ]
 
 
 def _chart_ops():
@@ -203,6 +248,23 @@ def _chart_ops():
     for g, lst in conv_set.items():
         for nm, f in lst:
             add(nm, (lambda s, c, f=f: f(s)), True, clause="convert_" + nm, games={g}, on="mapset")
+    # ---- further variants (kept after the operations above so that those keep their place at the head of every queue):
+    # the other value of every optional argument, the *_file variants, boundary arguments
+    for g, on, base_nm, nm, f in _converter_variants():
+        add(nm, (lambda m, c, f=f: f(m)), True, clause="convert_" + base_nm, games={g}, on=on)
+    add("write_file()", lambda m, c: _write_file(m), clause="write", games={"osu", "qua", "bms"})
+    add("write_file(PMS)", lambda m, c: _write_file(m, bms_other=True), clause="write", games={"bms"})
+    add("write(BMS layout, default sample)", lambda m, c: _bms_write_layout(m), clause="write", games={"bms"})
+    add("rate(1.0)", lambda m, c: m.rate(1.0), True)
+    add("describe(rounding, unicode)", lambda m, c: m.describe(rounding=0, unicode=True), clause="describe", games={"osu", "qua", "bms"})
+    add("metadata(unicode=False)", lambda m, c: m.metadata(unicode=False), clause="metadata", games={"osu", "qua", "bms"})
+    add("full_ln(gap=0, thres=0)", lambda m, c: full_ln(m, gap=0, ln_as_hit_thres=0), True, clause="full_ln")
+    add("full_ln(huge thres)", lambda m, c: full_ln(m, gap=150, ln_as_hit_thres=1e9), True, clause="full_ln")  # every LN would be a hit again
+    add("stack(include_types)", lambda m, c: (lambda s: (s.offset, s.column))(m.stack((NoteList,))), clause="stack_read")
+    add("write_file()", lambda s, c: _write_file(s), clause="write", on="mapset", games={"sm"})
+    add("rate(1.0)", lambda s, c: s.rate(1.0), True, on="mapset")
+    add("rate(0.5)", lambda s, c: s.rate(0.5), True, on="mapset")
+    add("describe(rounding, unicode)", lambda s, c: s.describe(rounding=0, unicode=True), clause="describe", on="mapset", games={"sm", "o2j"})
     return ops
 
 
@@ -210,6 +272,32 @@ def _bms_write_other(m):
     from reamber.bms.BMSChannel import BMSChannel
 
     return m.write(note_channel_config=BMSChannel.PMS_BME, no_sample_default=b"0Z")
+
+
+def _bms_write_layout(m):
+    from reamber.bms.BMSChannel import BMSChannel
+
+    return m.write(BMSChannel.BMS)
+
+
+def _write_file(obj, bms_other=False):
+    """the *_file variant of write(): into a temporary file that is removed again; returns what was written"""
+    import os
+    import tempfile
+
+    from reamber.bms.BMSChannel import BMSChannel
+
+    fd, p = tempfile.mkstemp(suffix=".c14")
+    os.close(fd)
+    try:
+        if bms_other:
+            obj.write_file(p, note_channel_config=BMSChannel.PMS_BME, no_sample_default=b"0Z")
+        else:
+            obj.write_file(p)
+        with open(p, "rb") as f:
+            return f.read()
+    finally:
+        os.unlink(p)
 
 
 def _pattern_ops():
@@ -344,6 +432,65 @@ def _specs(game):
     return [("full", full), ("unsorted_labels", unsorted_), ("empty_lists", empties)]
 
 
+def _more_specs(game):
+    """Charts for the input dimensions the three basic charts hold fixed:
+
+    edge_values      the game's other key count / chart type (7K, dance-solo); int-typed offset / length / bpm columns; two hits, two tempo points and two SVs at exactly the same time (different
+                     values); objects at time 0, at a negative and at a very large time; a zero-length hold; hold and SV rows not in time
+                     order; EVERY list with non-default row labels (reversed / gappy / filtered / permuted by sorted())
+    one_row_lists    no hits at all, every other list with exactly one row; times with sub-millisecond fractions
+    all_empty        every list of the chart empty (also the tempo list)"""
+    sv = game in ("osu", "qua")
+    first = 1 if game == "bms" else 0
+    edge = std_spec(game, hits=[(0, first), (0, first + 1), (-500, 2), (10_000_000, 3), (250, 2)], holds=[(3000, 2, 0), (2000, 3, 750), (2000, first, 10)],
+                    bpms=[(0, 120), (4000, 240), (4000, 60), (-2000, 90)], **(dict(svs=[(2100, 0.5), (100, 1.5), (100, 2.0), (-100, 0)]) if sv else {}),
+                    **(dict(mines=[(750, 1), (0, 1)], rolls=[(5000, 2, 0), (4000, 1, 300)], fakes=[(10, 0)], lifts=[(10, 1), (5, 1)], keysounds=[(7, 3)], stops=[(1000, 250), (1000, 125)])
+                       if game == "sm" else {}),
+                    **(dict(samples=[(300, "a.wav", 40), (300, "b.wav", 0), (-1, "c.wav", 100)]) if game == "osu" else {}))
+    for name in ("hits", "holds", "bpms", "rolls", "mines", "fakes", "lifts", "keysounds", "stops", "samples"):
+        for r in edge.get(name, []):
+            for k in ("offset", "length", "bpm"):
+                if k in r:
+                    r[k] = int(r[k])  # int-typed columns (a chart built from whole numbers)
+    edge["labels"] = dict(hits="rev", holds="mask", bpms="gappy", svs="rev", mines="rev", rolls="gappy", lifts="after", stops="rev", samples="mask")
+    edge["c14_post"] = dict(bpms="sorted")  # labels permuted, rows in time order
+    # the other key count / chart type of the game (the basic charts are all 4-key)
+    edge["meta"] = dict(osu=dict(circle_size=7.0), qua=dict(mode="Keys7"), sm=dict(chart_type="dance-solo", difficulty="Challenge")).get(game, {})
+    one = std_spec(game, hits=[], holds=[(1234.5678, 2, 0.25)], bpms=[(0.125, 133.33)], **(dict(svs=[(99.999, 0.01)]) if sv else {}),
+                   **(dict(mines=[(0.5, 1)], stops=[(1.5, 2.5)]) if game == "sm" else {}), **(dict(samples=[(0.75, "a.wav", 1)]) if game == "osu" else {}))
+    empty = std_spec(game, hits=[], holds=[], bpms=[])
+    return [("edge_values", edge), ("one_row_lists", one), ("all_empty", empty)]
+
+
+def _build(spec):
+    """C12's builder + the C14-only post-processing recorded in the spec (JSON-able): c14_post = {list name: 'sorted'} replaces that
+    list by its .sorted() (rows in time order, row labels permuted), for a chart or for every chart of a mapset"""
+    obj = build(spec)
+    charts = [(obj, spec)] if "maps" not in spec else list(zip(obj.maps, spec["maps"]))
+    for m, sp in charts:
+        for name, how in (sp.get("c14_post") or {}).items():
+            if how == "sorted" and name in chart_lists(m) and len(getattr(m, name)):
+                setattr(m, name, getattr(m, name).sorted())
+    return obj
+
+
+class _Ctx(dict):
+    """ctx['other'] (the second osu chart, used by hitsound_copy only) is built when first asked for and then watched like every other
+    value (building an OsuMap for every case of every game is the most expensive part of a case)"""
+
+    def __init__(self, vals):
+        super().__init__()
+        self._vals = vals
+
+    def __missing__(self, key):
+        if key != "other":
+            raise KeyError(key)
+        v = V(_build(_other_osu()), "chart", "osu", "second osu chart")
+        self[key] = v
+        self._vals["other"] = v
+        return v
+
+
 def _other_osu():
     return std_spec("osu", hits=[(0, 0), (250, 2), (250, 3), (1625, 1)], holds=[(2000, 0, 100)], bpms=[(0, 120)])
 
@@ -351,7 +498,7 @@ def _other_osu():
 def _base_values(case):
     """the input objects of a case: the chart (or mapset) itself, every list of it, and (osu) a second chart"""
     spec = case["spec"]
-    obj = build(spec)  # never a cached copy: pandas copies do not copy objects inside cells
+    obj = _build(spec)  # never a cached copy: pandas copies do not copy objects inside cells
     game = spec["game"]
     vals = {}
     if "maps" in spec:
@@ -362,9 +509,9 @@ def _base_values(case):
         vals["base"] = V(obj, "chart", game, "input chart")
         for name, l in chart_lists(obj).items():
             vals[name] = V(l, "list", game, f"list {name} of the input chart", name=name)
-    ctx = {}
-    ctx["other"] = V(build(_other_osu()), "chart", "osu", "second osu chart")
-    vals["other"] = ctx["other"]
+    ctx = _Ctx(vals)
+    if game == "osu" and case.get("watch_other", True):
+        ctx["other"]  # present from the start (as in the cases saved earlier); otherwise it is built when an operation asks for it
     return vals, ctx
 
 
@@ -441,6 +588,15 @@ def _run_case(case, stats=None):
                     break
             if hit:
                 break
+        else:
+            # and the other way round: the INPUT of the last step is changed in place, the result must stay what it is now
+            before = snapshot_any(res)
+            n = _mutate(vals[key].obj, False) if _kind_of(vals[key].obj) in ("list", "chart", "mapset") else 0
+            if stats is not None:
+                stats["input_mutations"] = stats.get("input_mutations", 0) + n
+            d = diff(before, snapshot_any(res)) if n else []
+            if d:
+                out.append((_clause(op, "fresh") + "_after_input_edit", f"changing {vals[key].origin} in place after step {k} ({op['name']}) changed the result of that step: {'; '.join(d[:3])}"))
     seen, uniq = set(), []
     for w, d in out:
         if w not in seen:
@@ -460,38 +616,71 @@ def _c14_game(rep, game):
     specs = [(lab, sp) for lab, sp in _specs(game)]
     d = dict(specs)
     specs += [("set2", dict(game=game, maps=[d["full"], d["empty_lists"]])), ("set1_labels", dict(game=game, maps=[d["unsorted_labels"]]))]
+    more = _more_specs(game)
+    dm = dict(more)
+    # a set whose MIDDLE chart is empty, followed by a chart without hits
+    more += [("set3_empty_middle", dict(game=game, maps=[d["full"], dm["all_empty"], dm["one_row_lists"]]))]
     stopped = False
-    for label, spec in specs:
-        vals, ctx = _base_values(dict(spec=spec))
-        # length 1: every applicable op on every input value
-        singles = []
+    per_spec = {}
+
+    def run(label, spec, steps, watch_other=None):
+        nonlocal n
+        case = dict(spec=spec, steps=steps)
+        if watch_other is not None:
+            case["watch_other"] = watch_other
+        rep.case(case, nontrivial=True)
+        n += 1
+        per_spec[label] = per_spec.get(label, 0) + 1
+        for what, dd in _run_case(case, stats):
+            rep.fail(what, case, f"{label}: {dd}")
+
+    def queue_of(label, spec, only_keys=None):
+        vals, ctx = _base_values(dict(spec=spec, watch_other=False))
+        # length 1: every applicable op on every input value (the chart / mapset first, then its lists / charts)
+        q = []
         for key, v in vals.items():
-            if key == "other":
+            if key == "other" or (only_keys is not None and key not in only_keys):
                 continue
             for op in ops_for(v):
-                singles.append([key, op["id"]])
-        for st in singles:
-            if rep.out_of_time(40, 200):
-                stopped = True
-                break
-            case = dict(spec=spec, steps=[st])
-            rep.case(case, nontrivial=True)
-            n += 1
-            for what, dd in _run_case(case, stats):
-                rep.fail(what, case, f"{label}: {dd}")
-        # scripted sequences: pattern extraction then grouping, copies that are then written / converted / filtered
-        for steps in _scripted(spec, vals):
-            if rep.out_of_time(40, 200):
-                stopped = True
-                break
-            case = dict(spec=spec, steps=steps)
-            rep.case(case, nontrivial=True)
-            n += 1
-            for what, dd in _run_case(case, stats):
-                rep.fail(what, case, f"{label}: {dd}")
-        # length 2 and 3: the next op is applied to the previous result when that is a chart / list / mapset / pattern
-        M = rep.n(30, 1500)
-        for _ in range(M):
+                q.append([[key, op["id"]]])
+        # scripted sequences: pattern extraction then grouping, copies that are then written / converted / filtered, and the
+        # same operation twice on the same input
+        return q + _scripted(spec, vals) + _twice(spec, vals)
+
+    def phase(group, budget, only=None, list_share=1.0):
+        """the cases of all objects of the group in turn (first case of every object, second case of every object, ...): when the time
+        budget ends the run early, every object has had its chart-level operations and the same share of the rest"""
+        nonlocal stopped
+        queues = [(label, spec, queue_of(label, spec, (only or {}).get(label))) for label, spec in group]
+        if list_share < 1.0:
+            # quick tier: of the single operations on the LISTS of these objects a random share only (all chart / mapset operations are kept)
+            queues = [(label, spec, [st for st in q if len(st) > 1 or st[0][0].startswith(("base", "chart")) or rng.random() < list_share]) for label, spec, q in queues]
+        for i in range(max(len(q) for _, _, q in queues)):
+            for label, spec, q in queues:
+                if i >= len(q):
+                    continue
+                if rep.out_of_time(*budget):
+                    stopped = True
+                    return
+                # the second osu chart is watched during every case of the first chart (two instances alive at once); for the other
+                # objects it is built only when an operation asks for it
+                run(label, spec, q[i], watch_other=None if label == "full" else False)
+
+    # phase 0: the chart with all lists filled; phase 1: the other two basic charts and the two sets; phase 2: the charts / set of
+    # _more_specs; phase 3: random sequences over all of them.  Each phase has its own share of the time budget so that a busy machine
+    # cuts the tail of every phase instead of dropping the later phases.
+    phase(specs[:1], (20, 90))
+    phase(specs[1:], (28, 150))
+    phase(more, (37, 200), only=dict(set3_empty_middle=("base", "chart1")), list_share=rep.n(0.5, 1.0))
+    # length 2 and 3: the next op is applied to the previous result when that is a chart / list / mapset / pattern (or, 1 in 4, again
+    # to an input value)
+    M = rep.n(30, 1500)
+    M2 = rep.n(12, 500)
+    todo = [(lab, sp, M) for lab, sp in specs] + [(lab, sp, M2) for lab, sp in more]
+    for r in range(M):
+        for label, spec, m in todo:
+            if r >= m:
+                continue
             if rep.out_of_time(42, 230):
                 stopped = True
                 break
@@ -499,18 +688,44 @@ def _c14_game(rep, game):
             steps = _random_steps(rng, spec, L)
             if len(steps) < 2:
                 continue
-            case = dict(spec=spec, steps=steps)
-            rep.case(case, nontrivial=True)
-            n += 1
-            for what, dd in _run_case(case, stats):
-                rep.fail(what, case, f"{label}: {dd}")
+            run(label, spec, steps)
+        if stopped and rep.out_of_time(42, 230):
+            break
     rep.extra.update(stats)
     rep.extra["stopped_by_time_budget"] = stopped
+    rep.extra["cases_per_object"] = per_spec
     rep.extra["operations"] = sorted({o["id"] for o in all_ops() if not o.get("games") or game in o["games"]})
-    rep.bound = (f"{game}: 3 charts (all lists filled; unsorted rows with gappy / filtered labels; empty hold/SV/sample lists) and 2 mapsets; every applicable operation "
-                 f"({len(rep.extra['operations'])} operation variants) once on every input value (chart, each list, mapset, each chart of it); {rep.n(30, 1500)} random sequences of 2-3 operations per object; {n} cases")
+    rep.bound = (f"{game}: 3 charts (all lists filled; unsorted rows with gappy / filtered labels; empty hold/SV/sample lists) and 2 mapsets, + 3 charts (int-typed columns with ties, time 0, negative / huge "
+                 f"times, zero-length holds, every list with reversed / gappy / filtered / permuted row labels, hold and SV rows out of time order; no hits and one row in every other list, sub-ms times; "
+                 f"every list empty) and a 3-chart set with the empty chart in the middle; every applicable operation "
+                 f"({len(rep.extra['operations'])} operation variants: each optional argument of the filters, converters, writers (write and write_file), full_ln, describe, rate with its default and another value; "
+                 f"boundary arguments whose result keeps all / no rows) once on every input value (chart, each list, mapset, each chart of it; for the lists of the added objects a random half in the quick tier); the same operation twice on the same input; "
+                 f"{M} (basic) / {M2} (added objects) random sequences of 2-3 operations per object; {n} cases")
     rep.rule = ("a case is (object, sequence of <= 3 operations): all inputs and earlier results are compared with their snapshots after every operation, "
-                "and again after the last result (when a copy) has been changed in place")
+                "again after the last result (when a copy) has been changed in place, and the last result is compared again after its input has been changed in place")
+
+
+def _twice(spec, vals):
+    """the same operation twice on the same input value (state kept between calls, effects that only show the second time)"""
+    game = spec["game"]
+    top = "mapset" if "maps" in spec else "chart"
+    names = ["deepcopy()", "rate(1.5)", "write()", "write_file()", "full_ln()", "sv_normalize()", "scroll_speed()", "dominant_bpm()", "Pattern.from_note_lists",
+             "hitsound_copy(src=m, tgt=other)", "OsuToBMS", "OsuToBMS(move_right_by=3)", "QuaToBMS", "QuaToBMS(move_right_by=3)", "BMSToOsu", "OsuToSM", "QuaToSM", "BMSToSM",
+             "SMToOsu", "SMToBMS", "O2JToOsu", "O2JToBMS", "O2JToBMS(move_right_by=3)", "O2JToSM_merge", "stack_read"]
+    out = []
+    v = vals["base"]
+    have = {o["id"] for o in ops_for(v)}
+    for nm in names:
+        oid = f"{top}:{nm}"
+        if oid in have:
+            out.append([["base", oid], ["base", oid]])
+    for key in ("hits", "holds", "bpms", "svs"):
+        if key in vals:
+            for nm in ("sorted()", "append(list, sort)", "after(t)"):
+                oid = f"list:{nm}"
+                if oid in {o["id"] for o in ops_for(vals[key])}:
+                    out.append([[key, oid], [key, oid]])
+    return out
 
 
 def _scripted(spec, vals):
@@ -574,6 +789,8 @@ def _random_steps(rng, spec, L):
             key = f"r{k}"
         else:
             key = rng.choice(keys)
+        if rng.random() < 0.25:
+            key = steps[0][0] if rng.random() < 0.5 else rng.choice(keys)  # back to an input value (the first one again, or any)
     return steps
 
 
